@@ -131,6 +131,7 @@ type groupResult struct {
 	CurEnd    int64
 	Gauge     int64
 	Undone    int
+	MaxLateMs int
 	Histories []*Result
 }
 
@@ -160,6 +161,13 @@ func runGroup(idBase int, m, g int) *groupResult {
 			gr.Undone++
 		}
 		gr.Gauge += h.Gauge
+		for _, x := range h.Rec {
+			if x.Kind == "ev.start" {
+				if d := int(x.T/1000) - h.Spec.Events[x.K].AtMs; d > gr.MaxLateMs {
+					gr.MaxLateMs = d
+				}
+			}
+		}
 		if countNew(h) >= 2 {
 			gr.Admitted++
 		} else {
@@ -191,8 +199,9 @@ func c10(args []string) int {
 			}
 			replay := map[string]interface{}{"max_retries": m, "requests": g, "admitted": gr.Admitted, "refused": gr.Refused, "cur_mid": gr.CurMid, "cur_end": gr.CurEnd}
 			run.Count(fmt.Sprintf("group:%d:%d", m, g), true, "group")
-			if gr.Undone > 0 {
-				continue
+			if gr.Undone > 0 || gr.MaxLateMs > 15 {
+				run.Sum.Distribution["group:skipped-timing"]++
+				continue // the requests did not overlap as scripted; nothing can be concluded about the threshold
 			}
 			if gr.Admitted != want || gr.CurMid != int64(want) {
 				run.Fail("C10:threshold", fmt.Sprintf("max_retries=%d, %d concurrent retrying requests: %d admitted (want %d), Retries().Cur()=%d while they were in flight", m, g, gr.Admitted, want, gr.CurMid), replay)
